@@ -1205,3 +1205,68 @@ func boolOrNilFact(c *Ctx, b *ssa.BasicBlock, typ, field string, wantNil bool) b
 	}
 	return false
 }
+
+// ---------------------------------------------------------------------------
+// R-REGS-RESET (added after seed C01): the continuation that resumes a clause body after a call starts
+// with empty argument registers; it never re-uses (re-slices) the caller's argument buffer.
+
+func ruleRegsReset(c *Ctx, r *Report) {
+	const rule = "R-REGS-RESET"
+	exec := c.method("VM", "exec")
+	if exec == nil {
+		r.undecided(rule, "anchor:exec", "-", "locate exec", "not found")
+		return
+	}
+	var regIdx []int
+	for i, p := range exec.Params {
+		switch t := p.Type().Underlying().(type) {
+		case *types.Slice:
+			if isEngNamed(t.Elem(), "Term") {
+				regIdx = append(regIdx, i) // args
+			}
+			if s2, ok := t.Elem().Underlying().(*types.Slice); ok && isEngNamed(s2.Elem(), "Term") {
+				regIdx = append(regIdx, i) // astack
+			}
+		}
+	}
+	if len(regIdx) != 2 {
+		r.undecided(rule, "anchor:registers", c.Pos(exec.Pos()), "locate the args/astack registers of exec", fmt.Sprintf("found %d", len(regIdx)))
+		return
+	}
+	n := 0
+	for _, f := range withAnon(exec)[1:] {
+		if !c.isContType(f.Signature) && !(f.Signature.Params().Len() == 1 && c.isEnvPtr(f.Signature.Params().At(0).Type())) {
+			continue // only continuations (func(*Env) *Promise)
+		}
+		eachInstr(f, func(in ssa.Instruction) {
+			ci, ok := in.(ssa.CallInstruction)
+			if !ok || ci.Common().StaticCallee() != exec {
+				return
+			}
+			for _, ri := range regIdx {
+				n++
+				arg := ci.Common().Args[ri]
+				key := fmt.Sprintf("%s/exec.%s", fname(f), exec.Params[ri].Name())
+				desc := "after a call returns, the clause body continues with empty argument registers of its own"
+				if isNilConst(arg) {
+					r.ok(rule, key, c.at(ci), desc, "nil", false)
+					continue
+				}
+				fresh := true
+				for _, l := range c.originSet(arg) {
+					switch l.(type) {
+					case *ssa.MakeSlice, *ssa.Const:
+					default:
+						fresh = false
+					}
+				}
+				if fresh {
+					r.ok(rule, key, c.at(ci), desc, "freshly allocated in the continuation", true)
+				} else {
+					r.bad(rule, key, c.at(ci), desc, "the register is derived from the caller's buffer ("+valName(arg)+"): goals of different activations append into the same backing array, and a pending alternative later reads another goal's argument")
+				}
+			}
+		})
+	}
+	r.analysed(rule, fmt.Sprintf("%d register arguments in continuations of exec", n))
+}
